@@ -694,25 +694,33 @@ def model_run_strings(tag, g, strs):
     return vlib.coq_eval_lines(tag, IMPORTS, "", ["(run_%s %s)" % (g, cp(s)) for s in strs], shard=400)
 
 
-def shrink(g, s, rounds=14):
-    """Greedy character deletion keeping a code-vs-model disagreement (one coqc call per round)."""
+def shrink(g, s, rounds=16):
+    """Delta debugging on the characters, keeping a code-vs-model disagreement (one coqc call per round:
+    all candidates of one granularity are evaluated together)."""
+    n = 2
     for _ in range(rounds):
+        if len(s) < 2:
+            break
+        n = min(n, len(s))
+        size = -(-len(s) // n)
         cands = []
-        for i in range(len(s)):
-            c = s[:i] + s[i + 1:]
+        for i in range(0, len(s), size):
+            c = s[:i] + s[i + size:]
             if c not in cands:
                 cands.append(c)
-        if not cands:
-            break
         model = model_run_strings("c17s", g, cands)
         nxt = None
         for c, m in zip(cands, model):
             if observe(g, c)[0] != m:
                 nxt = c
                 break
-        if nxt is None:
+        if nxt is not None:
+            s = nxt
+            n = max(n - 1, 2)
+        elif size == 1:
             break
-        s = nxt
+        else:
+            n = min(2 * n, len(s))
     return s
 
 
@@ -796,6 +804,12 @@ def routes(ctx, gens):
     by = {g: [c for c in gens if c["g"] == g] for g in GRAMMARS}
     n = 60 if ctx.quick() else 600
     done = {"einsum": 0, "mapping": 0, "arch": 0}
+    bad = {"Einsum": 0, "Mapping": 0, "Architecture": 0}
+
+    def report(route, what, rep):
+        bad[route] += 1
+        if bad[route] <= 3:
+            ctx.violation({"kind": "section-route", "route": route}, what, rep)
     for _ in range(n):
         # Einsum section
         cs_ = rng.sample(by["eq"], rng.randint(1, 4))
@@ -806,7 +820,7 @@ def routes(ctx, gens):
             got = "raised %s: %s" % (type(e).__name__, str(e)[:100])
         done["einsum"] += 1
         if got != exp:
-            ctx.violation({"kind": "section-route", "route": "Einsum"},
+            report("Einsum",
                           "Einsum(yaml).get_expressions() holds %r for expressions %r (written: %r)" % (got, [c["s"] for c in cs_], exp),
                           {"route": "einsum", "strings": [c["s"] for c in cs_], "expected": exp})
         # Mapping section
@@ -835,7 +849,7 @@ def routes(ctx, gens):
                 got = "raised %s: %s" % (type(e).__name__, str(e)[:100])
             done["mapping"] += 1
             if got != (exp_p, exp_s):
-                ctx.violation({"kind": "section-route", "route": "Mapping"},
+                report("Mapping",
                               "Mapping(yaml) holds %r for partitioning %r / spacetime %r (written: %r)" % (got, part, st, (exp_p, exp_s)),
                               {"route": "mapping", "part": part, "st": st, "expected": [exp_p, exp_s]})
         # Architecture section (nested levels, two configurations)
@@ -857,9 +871,10 @@ def routes(ctx, gens):
             got = "raised %s: %s" % (type(e).__name__, str(e)[:100])
         done["arch"] += 1
         if got != expa:
-            ctx.violation({"kind": "section-route", "route": "Architecture"},
+            report("Architecture",
                           "Architecture(yaml) holds %r for level names %r (written: %r)" % (got, spec, expa),
                           {"route": "arch", "spec": spec, "expected": expa})
+    done["disagreeing_batches"] = dict(bad)
     return done
 
 
@@ -912,11 +927,17 @@ def run(ctx):
         if c["code"] != model or (expected is not None and c["code"] != expected):
             mism.append(c)
     # report (shrunk) disagreements: the string is the failing input
+    # at most one report per (grammar, class, features) and 25 in all; every disagreement is counted in the coverage
+    reported = set()
     for i, c in enumerate(mism):
         g, s = c["g"], c["s"]
         cls = classify(c["code"], c["model"], c.get("view"))
+        sig = (g, cls, tuple(features(s)), c["code"] if c["code"].startswith("ERROR") else "")
+        if sig in reported or len(reported) >= 25:
+            continue
+        reported.add(sig)
         s_min = s
-        if i < 3 and c["code"] != c["model"]:
+        if len(reported) <= 1 and c["code"] != c["model"]:
             try:
                 s_min = shrink(g, s)
             except Exception:
